@@ -278,6 +278,8 @@ def main():
     for r in results:
         if r['status'] == 'ok' and not r['obligations']:
             vac.append(f"{r['key']}: zero obligations")
+        if r.get('vacuity') not in (None, 'ok'):
+            vac.append(f"{r['key']}: {r['vacuity']} (contradictory precondition / assumption?)")
     # ---- evidence ----------------------------------------------------------------------------------
     by_route = {}
     for o in obs:
